@@ -438,9 +438,48 @@ def gen_chain_decoy(r):
     return seq, bytes(buf[:9000])
 
 
+def gen_big_jump(r):
+    """pieces of 2-4 fixed bytes separated by FIXED or NARROW large jumps (`[n]`, `[n-m]` with m-n < 200) at the chaining
+    threshold (200 / 201), around YR_RE_SCAN_LIMIT minus the literal lengths (1000-1030), and far beyond (1100, 3000): the
+    compiler must split at every jump with n > 200 or m > 200 whatever its width, a REPEAT_ANY instruction only verifies
+    within 1024 bytes of the atom.  Buffers hold the genuine occurrence(s) at gap n / m / between, and near misses."""
+    pool = r.sample([0x11, 0x22, 0x33, 0x44, 0x55, 0x66, 0x77, 0x88, 0x99, 0xAB, 0xCD, 0xEF, 0x12, 0x34, 0x56, 0x78], 16)
+    def piece():
+        return [("b", pool.pop()) for _ in range(r.choice([2, 3, 4, 4]))]
+    def jump():
+        u = r.random()
+        if u < 0.55:
+            n = r.choice([200, 201, 1000, 1012, 1015, 1016, 1017, 1018, 1019, 1020, 1024, 1030, 1100, 3000, r.randint(1005, 1030)])
+            return ("j", n, n, "n")
+        lo = r.choice([199, 200, 201, 1000, 1010, 1016, 2000, r.randint(1000, 1024)])
+        hi = lo + r.choice([1, 2, 30, 100, 199])
+        return ("j", lo, hi, "nm")
+    np_ = r.choice([2, 2, 2, 3])
+    ps = [piece() for _ in range(np_)]
+    js = [jump() for _ in range(np_ - 1)]
+    seq = []
+    for i, p in enumerate(ps):
+        seq += p
+        if i < len(js): seq.append(js[i])
+    fill = lambda n: bytes(r.choice([0x00, 0x37, 0x38, 0xF0]) for _ in range(n))
+    raw = lambda p: bytes(t[1] for t in p)
+    buf = bytearray(fill(r.choice([0, 0, 5])))
+    for _ in range(r.choice([1, 1, 2])):
+        for i, p in enumerate(ps):
+            buf += raw(p)
+            if i < len(js):
+                lo, hi = js[i][1], js[i][2]
+                buf += fill(r.choice([lo, hi, (lo + hi) // 2, lo, hi, max(0, lo - 1), hi + 1]))
+        buf += fill(r.choice([0, 3, 40]))
+    return seq, bytes(buf[:16000])
+
+
 def gen_case(r, cid):
-    if r.random() < 0.07:
+    u0 = r.random()
+    if u0 < 0.07:
         seq, buf = gen_chain_decoy(r)
+    elif u0 < 0.15:
+        seq, buf = gen_big_jump(r)
     else:
         seq = gen_pattern(r)
         buf = gen_buffer(r, seq)
@@ -463,6 +502,10 @@ CORPUS = [
     # three pieces, a decoy of the middle piece beyond the pruning window behind the head, before the tail
     ("A1 A2 A3 [0-300] B1 B2 B3 [0-5000] C1 C2 C3", bytes([0xA1, 0xA2, 0xA3]) + b"\0" * 7 + bytes([0xB1, 0xB2, 0xB3]) + b"\0" * 1987 + bytes([0xB1, 0xB2, 0xB3]) + b"\0" * 997 + bytes([0xC1, 0xC2, 0xC3]) + b"\0"),
     ("A1 A2 A3 [0-300] B1 B2 B3 [300-] C1 C2 C3", bytes([0xA1, 0xA2, 0xA3]) + b"\0" * 7 + bytes([0xB1, 0xB2, 0xB3]) + b"\0" * 1987 + bytes([0xB1, 0xB2, 0xB3]) + b"\0" * 997 + bytes([0xC1, 0xC2, 0xC3]) + b"\0"),
+    # fixed / narrow jumps beyond the 1024-byte verification window must be chaining points
+    ("01 02 03 04 [1017] 05 06 07 08", bytes([1, 2, 3, 4]) + b"\0" * 1017 + bytes([5, 6, 7, 8])),
+    ("01 02 03 04 [3000] 05 06 07 08", bytes([1, 2, 3, 4]) + b"\0" * 3000 + bytes([5, 6, 7, 8])),
+    ("01 02 03 04 [2000-2199] 05 06 07 08", bytes([1, 2, 3, 4]) + b"\0" * 2100 + bytes([5, 6, 7, 8])),
     # the best atom window is interior and begins with a wildcard (atoms.c window shift)
     ("10 ?? 41 42 43 ?? 20 30", b"\x00\x00\x00\x00" + bytes([0x10, 0x99, 0x41, 0x42, 0x43, 0x77, 0x20, 0x30]) + b"\x00"),
     ("1? ?? 41 42 43 ?? 2?", b"\x00\x00\x00\x00" + bytes([0x1A, 0x99, 0x41, 0x42, 0x43, 0x77, 0x2B]) + b"\x41\x42\x43"),
@@ -607,13 +650,15 @@ def run(tier, replay=None):
     wres, wfound = rc.check_wfx(core, chk, b, cases, lambda l, kind, err: False, found_so_far=found) if lres.get("driver_ok") else ({}, False)
     ares, afound = rc.check_atoms(core, chk, cases, imap, amap, found_so_far=found) if lres.get("driver_ok") else ({}, False)
     found = found or afound
+    cres, cfound = rc.check_chain(core, chk, cases, amap) if lres.get("driver_ok") else ({}, False)
+    found = found or cfound
     found = found or wfound
     chk.cov.update({
         "evaluations": len(cases) + len(mal), "distinct_nontrivial": len(distinct),
         "rule": "generated hex pattern x buffer built from instances / near-misses of the pattern; non-trivial = the specification admits at least one match in the buffer "
                 "(distinct (pattern, buffer) pairs)",
         "histogram": hist, "malformed_rejected": nmal, "violating_cases": nviol, "known_finding_cases": {k: len(v) for k, v in known_hits.items()},
-        "traces_validated_against_impl": len(cases) - nviol, "fx": fxres.get("cov"), "wfx": wres, "atoms_tie": ares,
+        "traces_validated_against_impl": len(cases) - nviol, "fx": fxres.get("cov"), "wfx": wres, "atoms_tie": ares, "chain_tie": cres,
         "samples": [{"case_meta": metas.get(cases[min(len(cases) - 1, len(CORPUS))].split(" ", 1)[0]), "implementation": (impl[min(len(impl) - 1, len(CORPUS))][:300] if impl else None),
                      "model": (model[min(len(model) - 1, len(CORPUS))][:300] if model else None)}],
     })
